@@ -151,6 +151,8 @@ def template(node, env, nl_attrs=(), depth=0):
                         env3[nm.id] = None
                 elem = template(a2.elt, env3, nl_attrs, depth + 1)
                 over = leaf_text(g.iter, e2, None)
+                if isinstance(g.iter, ast.Call) and norm(g.iter.func) == "range":
+                    over = f"range:{_count_text(g.iter, e2)}"     # same normal form as a list built by a range loop
                 return [("join", sep, _parts_text(elem), over, elem, norm(g.target))]
             if isinstance(a2, (ast.List, ast.Tuple)):
                 out = []
